@@ -228,12 +228,19 @@ Section WithWorld.
   Definition get_min_fold_count_limit (h : fold_hdr) : res (option Z) :=
     get_min_fold_count_limit_aux (fo_post h) None.
 
+  (* Iterator::take(m) on a list, without building a unary number of size m *)
+  Fixpoint take_z {A} (m : Z) (l : list A) : list A :=
+    match l with
+    | [] => []
+    | x :: r => if Z.ltb 0 m then x :: take_z (m - 1) r else []
+    end.
+
   (* collect_fold_elements on an already-computed element list *)
   Definition collect_fold_elements {A} (elems : list A) (maxl minl : option Z) : option (list A) :=
     match maxl with
     | Some m => if Z.ltb m (Z.of_nat (List.length elems)) then None else Some elems
     | None => match minl with
-              | Some m => Some (firstn (Z.to_nat m) elems)
+              | Some m => Some (take_z m elems)
               | None => Some elems
               end
     end.
